@@ -138,7 +138,9 @@ fn body_recurse(
                 }
             }
             Some(TokenTree::Literal(literal)) => {
-                lines.last_mut().unwrap().push_str(&literal.to_string());
+                // the lines become a format string: braces inside a literal are text, not placeholders
+                let text = literal.to_string().replace('{', "{{").replace('}', "}}");
+                lines.last_mut().unwrap().push_str(&text);
             }
             None => {
                 break;
